@@ -47,6 +47,27 @@ MUTATIONS = [
      ("            .unwrap_or(metrics.os2_typo_ascender.into_inner())\n            .ot_round()", "            .unwrap_or(metrics.os2_typo_ascender.into_inner())\n            .round()\n            .ot_round()"), r"c19_vertical_origin_in_range_is_exact_rounding"),
     ("glyph_height_wraps", "C19", "fontir/src/ir.rs",
      ("                metrics.os2_typo_ascender.into_inner() - metrics.os2_typo_descender.into_inner()\n            })\n            .ot_round()", "                metrics.os2_typo_ascender.into_inner() - metrics.os2_typo_descender.into_inner()\n            })\n            .round() as i64 as u16"), r"c19_glyph_height_out_of_range_never_wraps"),
+    # --- mutations aimed at obligations that no seeded change had exercised (vacuity check of the contracts) ---
+    ("tent_has_non_zero_looks_at_peak_only", "C07", "fontdrasil/src/variations.rs",
+     ("        (zero, zero, zero) != (self.min, self.peak, self.max)", "        zero != self.peak"), r"c07_tent_zeroes_and_has_non_zero"),
+    ("tent_region_coords_start_end_swapped", "C07", "fontdrasil/src/variations.rs",
+     ("            start_coord: self.min.to_f2dot14(),", "            start_coord: self.max.to_f2dot14(),"), r"c07_tent_region_axis_coords_valid"),
+    ("location_dedup_keeps_first_value", "C07", "fontdrasil/src/coords.rs",
+     ("                *b_val = *a_val;\n", ""), r"c07_location_from_vec_is_a_map_3"),
+    ("avar_default_map_last_pair_wrong", "C08", "fontbe/src/avar.rs",
+     ("        AxisValueMap::new(F2Dot14::from_f32(1.0), F2Dot14::from_f32(1.0)),", "        AxisValueMap::new(F2Dot14::from_f32(1.0), F2Dot14::from_f32(0.9)),"), r"c08_avar_default_segment_map_is_required_triple"),
+    ("user_coord_to_fixed_truncates", "C08", "fontdrasil/src/coords.rs",
+     ("        Fixed::from_f64(value.to_f64())", "        Fixed::from_i32(value.to_f64() as i32)"), r"c08_user_coord_into_fixed_is_nearest_16_16"),
+    ("normalized_to_f2dot14_via_f32", "C08", "fontdrasil/src/coords.rs",
+     ("impl From<NormalizedCoord> for F2Dot14 {\n    fn from(value: NormalizedCoord) -> Self {\n        F2Dot14::from_f64(value.to_f64())", "impl From<NormalizedCoord> for F2Dot14 {\n    fn from(value: NormalizedCoord) -> Self {\n        F2Dot14::from_f32(value.to_f64() as f32)"), r"c08_normalized_coord_into_f2dot14_is_nearest_2_14"),
+    ("from_keyword_anon_is_eof", "C13", "fea-rs/src/parse/lexer/lexeme.rs",
+     ('            b"anon" | b"anonymous" => Some(Kind::AnonKw),', '            b"anon" => Some(Kind::Eof),\n            b"anonymous" => Some(Kind::AnonKw),'), r"c13_from_keyword_never_eof"),
+    ("rank_new_bit_mod_32", "C16", "fontir/src/feature_variations.rs",
+     ("        buf[idx] = 1 << bit;", "        buf[idx] = 1 << (bit % 32);"), r"c16_rank_new_is_power_of_two"),
+    ("rank_first_bit_looks_at_first_word", "C16", "fontir/src/feature_variations.rs",
+     ("        (self.0.last().copied().unwrap_or_default() & 1) > 0", "        (self.0.first().copied().unwrap_or_default() & 1) > 0"), r"c16_rank_probe_"),
+    ("unicode_ranges_two_entries_swapped", "C17", "fontbe/src/os2.rs",
+     ("    (0x0250, 0x02AF, 4),      // IPA Extensions\n    (0x02B0, 0x02FF, 5),      // Spacing Modifier Letters\n", "    (0x02B0, 0x02FF, 5),      // Spacing Modifier Letters\n    (0x0250, 0x02AF, 4),      // IPA Extensions\n"), r"c17_unicode_ranges_table_well_formed"),
     ("rank_shift_carry_into_bit_62", "C16", "fontir/src/feature_variations.rs",
      ("            *val |= carry_bit << 63;", "            *val |= carry_bit << 62;"), r"c16_rank_shift_"),
     ("rank_bitor_assign_front_aligned", "C16", "fontir/src/feature_variations.rs",
